@@ -74,7 +74,7 @@ ENGINES = {
         "virtual": ["core"],
         "add": E1_ADD,
         "gomaxprocs": 1,
-        "chunk": {"quick": 25, "thorough": 200},
+        "chunk": {"quick": 100, "thorough": 500},
         "crash_classifier": "crash_fsm",
         "env": {"VERIF_REPEAT": "8"},
         "kind": "E1 fsmsim: real FSM/ircserver/outputstream/raftstore/FileSnapshotStore per node inside a synctest bubble; consensus stubbed by a single-copy reference log with arbitrary lag",
@@ -100,40 +100,50 @@ def e1_check(prop, runs_q, runs_t, rule, claim, probes, note="E1 components are 
 
 
 CHECKS = {
-    "C01": e1_check("C01", 400, 20000,
+    "C01": e1_check("C01", 4000, 200000,
         "scenario = explicit list of log-producing steps (create/line/delete/config/raft-internal/marked entry), clock advances, and per-node schedule/fault steps (apply with lag, snapshot at chosen horizon, persist failure, restart, InstallSnapshot, save+load); 2-4 replicas of the same log; non-trivial = >=10 per-entry outputs compared between replicas and >=1 output with >=2 recipients; distinct = event-trace digest",
         "Every entry's output (ids, bytes, order, recipient sets; numeric 003 masked), Apply result and full reflected state are compared between 2-4 real replicas that apply the same log under different lag, restarts, snapshot/restore and map-iteration orders; divergence is reported with the entry.",
         ["outputs_compared", "state_comparisons", "multi_recipient_outputs", "lagging_applies", "restarts"]),
-    "C02": e1_check("C02", 400, 30000,
+    "C02": e1_check("C02", 4000, 300000,
         "same scenario space as C01, biased to snapshot/persist-failure/restart/InstallSnapshot steps; the compaction time of each snapshot is chosen relative to entry timestamps (nothing / a prefix / everything older than the horizon; or the clock); non-trivial = >=2 persisted snapshots and >=1 restore, or a snapshot that folded every stored entry followed by a restore, or a persist failure followed by a successful snapshot; distinct = event-trace digest",
         "A node that snapshots, fails persisting, restarts, restores (own or installed snapshot) is compared with a twin that applied the whole log without ever snapshotting: full reflected state, per-entry output of all later entries, output of every retained id, exactness of what each Snapshot() deleted (computed from log timestamps and the session expiration in force), and the horizon actually used.",
         ["snapshots_persisted", "snapshots_folded_all", "snapshots_folding_nothing", "persist_failures", "persist_skipped_crash", "restores", "installs", "restarts", "retained_outputs_compared", "raft_internal_entries"]),
-    "C03": e1_check("C03", 400, 30000,
+    "C03": e1_check("C03", 4000, 300000,
         "same scenario space; 'cycle' steps serialize a node's IRC state and load it into a fresh instance in place at arbitrary cut points; non-trivial = >=1 cycle or restore with >=20 entries applied afterwards; distinct = event-trace digest",
         "Save+load is a fault event at arbitrary cuts: the reflected state (every field, by reflection) must be identical right after load, and the cycled node must produce the same output as the never-serialized twin for the whole continuation and end in the same state.",
         ["cycles", "entries_after_cycle", "state_comparisons"]),
-    "C06": e1_check("C06", 600, 60000,
+    "C06": e1_check("C06", 5000, 600000,
         "same scenario space; lines are drawn from a grammar of all client commands x parameter shapes (missing, empty, empty trailing, existing/non-existing/other-case targets, lists) plus garbage, from unregistered/registered/operator sessions, and protocol-conforming services lines from an authenticated link; non-trivial = >=20 lines applied; distinct = event-trace digest",
         "No applied entry may panic on any replica, in states reached through lag, restart, restore and save+load. A panic inside FSM.Apply terminates the worker the way it terminates a node (message-of-death path); the runner classifies that exit as the violation.",
         ["lines_applied", "services_entries", "restores", "cycles"],
         note="The simulator contributes reachable states and roles; the input dimension is sampled from a grammar (weaker half). Services lines are kept protocol-conforming (prefix present where the protocol has one, full-form NICK, >=1 parameter for MODE/JOIN/PART)."),
-    "C12": e1_check("C12", 400, 30000,
+    "C12": e1_check("C12", 4000, 300000,
         "same scenario space; every output message of every entry on the never-faulted node is checked; non-trivial = >=1 relayed channel message with >=2 potential recipients and >=2 membership-changing events; distinct = event-trace digest",
         "Per output message: recipients of a channel PRIVMSG/NOTICE must equal the other current members (services links aside); private messages only to the owner of the target nickname; numerics/ERROR/PONG only to the causing or closed session; JOIN/PART/KICK/TOPIC/MODE/NICK/QUIT only to sessions sharing the affected channel(s) and the subject; every session-derived prefix must be the current identity of that session and, for relayed client lines, of the sender.",
         ["relayed_checked", "relayed_checked_multi", "membership_events", "multi_recipient_outputs"]),
-    "C13": e1_check("C13", 400, 30000,
+    "C13": e1_check("C13", 4000, 300000,
         "same scenario space; every entry of a non-services session is a transition (state before, input, state after) validated against the rights held before; non-trivial = >=3 transitions that changed privileged state; distinct = event-trace digest",
         "Transition validator over the white-box privileged state: any change of modes/keys/bans/operator status/topic/membership-by-kick/invitations/IRC-operator or services-link status/network bans/other sessions' existence must be justified by the actor's rights just before (chanop, membership, oper via configured credentials, invitation, exact key, no matching ban, valid captcha verified independently with the network secret).",
         ["privileged_transitions_checked", "joins_to_existing_checked", "transitions_checked"]),
-    "C14": e1_check("C14", 400, 30000,
+    "C14": e1_check("C14", 4000, 300000,
         "same scenario space, histories mix NICK/JOIN/PART/KICK/QUIT/KILL/GLINE, deletion, expiry, services SVSNICK/SVSJOIN/SVSPART/KILL/QUIT, case-only nick changes; non-trivial = >=20 invariant walks and >=3 membership events; distinct = event-trace digest",
         "After every applied entry: three-index walk (unique nicknames under an independent case mapping, valid names, symmetric membership, no empty channel, members live and reachable), session/channel limits at creation events, and agreement between announced JOIN/PART/KICK/QUIT events and the membership actually held.",
         ["invariant_walks", "membership_events", "expired_sessions"]),
-    "C15": e1_check("C15", 400, 30000,
+    "C15": e1_check("C15", 4000, 300000,
         "same scenario space with hostile text (CR, NUL, 600-byte and multi-byte text, leading colon) in every text position; every output line is checked; non-trivial = >=20 output lines checked; distinct = event-trace digest",
         "Every output message must be one IRC line: <=510 bytes, no LF/CR/NUL, optional non-empty prefix, then a command. E1 feeds the state machine what the POST handler would pass on (cut at the first LF); the HTTP half is covered by the cluster engine.",
         ["lines_checked"]),
-    "C17": e1_check("C17", 400, 30000,
+    "C10": e1_check("C10", 4000, 300000,
+        "same scenario space with deliberately colliding client message ids, marked (message-of-death) entries, snapshot/restore/save+load; non-trivial = >=1 client entry whose duplicate marker was compared; distinct = event-trace digest",
+        "State-machine half of C10 (the HTTP half - a retried POST is acknowledged without a second log entry - belongs to the cluster engine): after every client entry and every marked entry the session's marker equals that entry's client message id, and the marker agrees on all replicas after lag, restart, snapshot+restore and save+load.",
+        ["dup_markers_compared", "marked_entries", "restores", "cycles"],
+        note="E1 decides only the state-machine half (marker recorded before processing, for marked entries, surviving serialization, equal on replicas). The handler half (no second log entry for a retried POST) is decided by the cluster engine once registered."),
+    "C16": e1_check("C16", 4000, 300000,
+        "same scenario space with configuration entries (valid, unparsable, stale/future revision as the log may contain them), GLINE, snapshots, restores, save+load; non-trivial = >=2 accepted configuration entries; distinct = event-trace digest",
+        "State-machine half of C16: a parsable Config entry installs exactly that configuration and revision from its log position on, an unparsable one changes nothing, and the whole configuration (reflected field by field, including GLINE bans) agrees on all replicas at equal applied index after lag, restart, snapshot+restore and save+load.",
+        ["configs_applied", "configs_unparsable", "restores", "cycles"],
+        note="E1 decides the replicated half. The revision check of the HTTP handler (accept only the revision in force, +1 per accepted update) is decided by the cluster engine once registered."),
+    "C17": e1_check("C17", 4000, 300000,
         "same scenario space; after every lagging apply the node is asked for every created id and for ids between/newer than applied ones; the leader's expiry sweep runs at virtual times around the expiration threshold; non-trivial = >=5 lag lookups or >=1 expiry sweep; distinct = event-trace digest",
         "Lookups on nodes that applied only a prefix: 'no such session' only for deleted/impossible ids, never for ids newer than anything applied, live sessions always found; the expiry sweep must propose exactly the client sessions idle longer than the expiration in force (never pseudo-clients); ended sessions receive nothing further (nick free / channels left are the C14 walk).",
         ["lag_probes", "expire_sweeps", "expiry_nonempty", "expired_sessions"]),
